@@ -25,7 +25,7 @@ class C06(Check):
     known_classes = {}
 
     def make_case(self, rng):
-        fmt = rng.choice(FMTS)
+        fmt = rng.choice(FMTS + ["x"])
         shared = rng.random() < 0.8
         kind_mem = "hash" if (shared and rng.random() < 0.3) else "array"
         k = rng.choice([2, 2, 3]) if shared else 1
@@ -46,8 +46,13 @@ class C06(Check):
                 ["v", "o"],
             ])
         regvals = [rng.choice(exprs.BOUNDARY64 + [rng.randint(-1000, 1000)] * 6) for _ in range(k)]
+        if fmt == "x":
+            # fixed-point: amounts are integer or decimal constants, the scaled value starts near a 32-bit boundary
+            kind = "const"
+            amount = ["c", rng.choice([1, 2, 1000, 42949, 0.75, 1.25, 0.5, 42949.67296, 0.00001])]
         return {"fmt": fmt, "shared": shared, "mem": kind_mem, "k": k, "op": rng.choice(["iadd", "isub"]), "amount": amount,
-                "ofmt": ofmt, "oval": oval, "regvals": regvals, "init": exprs.rand_value(rng, fmt),
+                "ofmt": ofmt, "oval": oval, "regvals": regvals,
+                "init": rng.choice([0, 25000, -25000, -1, 1, 2 ** 32 - 50000, 2 ** 32 - 1, -2 ** 32 + 50000, 2 ** 31, 7 * 2 ** 32 - 3]) if fmt == "x" else exprs.rand_value(rng, fmt),
                 "neighbours": [rng.randrange(2 ** 32), rng.randrange(2 ** 32)], "schedseed": rng.randrange(2 ** 30)}
 
     def gen_cases(self):
@@ -140,6 +145,10 @@ class C06(Check):
 
     def amounts(self, case):
         res = []
+        if case["fmt"] == "x":
+            from fractions import Fraction
+            a = int(Fraction(str(case["amount"][1])) * 100000)
+            return [a if case["op"] == "iadd" else -a for _ in case["regvals"]]
         for rv in case["regvals"]:
             env = exprs.Env({"o": ("local", case["ofmt"], case["oval"])}, {3: rv})
             vals, _, _ = exprs.meaning(case["amount"], env, 64)
